@@ -9,3 +9,4 @@ open Pcore.Syntax
 #print axioms C05_type_roundtrip_partial
 #print axioms C05_type_reprint
 #print axioms C05_exact_string_prints_plain
+#print axioms C05_struct_key_forms
